@@ -842,6 +842,9 @@ impl Ctx {
             self.violations.len(),
             self.started.elapsed().as_secs_f64()
         );
+        if crate::conv::negzero_survey() {
+            eprintln!("NEGZERO-SURVEY {}: {} observed durations with a -0.0 field", self.id, crate::conv::NEGZERO.load(std::sync::atomic::Ordering::Relaxed));
+        }
         for l in &self.external_violations {
             println!("{l}");
         }
